@@ -65,6 +65,12 @@ pub fn skip_supports(bytes: &[u8], chunk: usize) -> Result<(), String> {
         for k in 0..3 { simple_sds::serialize::skip_option(&mut r).map_err(|e| format!("skip_option over support structure {} failed: {}", k, e))?; }
         if r.count != bytes.len() { return Err(format!("after skipping the three support structures (reads of at most {} bytes) the reader is at {} of {}", ch, r.count, bytes.len())); }
     }
+    // ... and through a reader whose every third call is interrupted (load and skip must retry, as read_exact does)
+    let mut r = crate::ser::Counting { inner: crate::ser::Interrupting { inner: crate::ser::Chunked { inner: std::io::Cursor::new(bytes), chunk: 4096 }, calls: 0 }, count: 0 };
+    usize::load(&mut r).map_err(|e| format!("interrupted reader: {}", e))?;
+    RawVector::load(&mut r).map_err(|e| format!("interrupted reader: {}", e))?;
+    for k in 0..3 { simple_sds::serialize::skip_option(&mut r).map_err(|e| format!("skip_option over support structure {} through a reader that is interrupted now and then failed: {}", k, e))?; }
+    if r.count != bytes.len() { return Err(format!("interrupted reader: at {} of {}", r.count, bytes.len())); }
     Ok(())
 }
 
